@@ -17,7 +17,7 @@ LEVEL = "exploration"
 RULE = ("Hypothesis draws a history: 1-3 inputs (C01's generator incl. the 'sub-model shared by two nested models' shape), 1-2 option "
         "sets and a list of 2-4 (thorough: up to 8) operation records over <= 3 live registries: generate(input, options), "
         "render(registry, framework, layout, literal/converter/meta options), render_model (the public per-class API "
-        "<Generator>(model).generate() outside generate_code), render_failing (a harness subclass of the code "
+        "<Generator>(model).generate() outside generate_code), names (generate_names() called again on a live registry), render_failing (a harness subclass of the code "
         "generator that raises inside field_data after k calls, i.e. inside the reference-context block; nested layout allowed on "
         "any graph because its output is never compared), cli (in-process CLI run with --datetime / "
         "--disable-str-serializable-types that perturbs the process-global string registry) and garbage. Operands are indices "
@@ -59,7 +59,10 @@ def cases(draw, tier="quick"):
     optsets = []
     for _ in range(draw(st.integers(1, 2))):
         o = draw(gen.option_sets(universe, frameworks=["base"]))
-        optsets.append({k: o[k] for k in ("merge", "sreg", "dkr", "dkf", "unicode")})
+        os_ = {k: o[k] for k in ("merge", "sreg", "dkr", "dkf", "unicode")}
+        # the user-given name of the root model; some change under class-name conversion
+        os_["root_name"] = draw(st.sampled_from(["Root", "Root", "Café", "Größe", "My-Model", "list", "two words"]))
+        optsets.append(os_)
     nops = draw(st.integers(2, 4 if tier == "quick" else 8))
     ops = [["generate", 0, 0]]
     if draw(st.integers(0, 4)) == 0:
@@ -79,7 +82,7 @@ def cases(draw, tier="quick"):
                    or ["render_model", 0, draw(RENDER_OPTS), draw(st.integers(0, 5))])
         nops = max(0, nops - 2)
     for _ in range(nops):
-        kind = draw(st.sampled_from(["render", "render", "render", "render_model", "render_model", "generate", "render_failing", "render_failing", "cli", "garbage"]))
+        kind = draw(st.sampled_from(["render", "render", "render", "render_model", "render_model", "generate", "names", "render_failing", "render_failing", "cli", "garbage"]))
         if kind == "generate":
             ops.append(["generate", draw(st.integers(0, ninputs - 1)), draw(st.integers(0, len(optsets) - 1))])
         elif kind == "render":
@@ -88,6 +91,8 @@ def cases(draw, tier="quick"):
             ops.append(["render_failing", draw(st.integers(0, 2)), draw(RENDER_OPTS), draw(st.integers(0, 6))])
         elif kind == "render_model":
             ops.append(["render_model", draw(st.integers(0, 2)), draw(RENDER_OPTS), draw(st.integers(0, 5))])
+        elif kind == "names":
+            ops.append(["names", draw(st.integers(0, 2))])
         elif kind == "cli":
             ops.append(["cli", draw(st.sampled_from([["--datetime"], ["--disable-str-serializable-types", "int"],
                                                       ["--datetime", "--disable-str-serializable-types", "float", "date"],
@@ -104,7 +109,11 @@ def valid(case):
             return False
         for s in case["inputs"]:
             for o in case["optsets"]:
-                if not c01.valid({"samples": _without_config(s), "opts": dict(o, fw="base")}):
+                oo = dict(o, fw="base")
+                rn = oo.pop("root_name", "Root")
+                if not isinstance(rn, str) or not rn or rn != rn.strip() or not any(c.isalpha() for c in rn[:1]):
+                    return False
+                if not c01.valid({"samples": _without_config(s), "opts": oo}):
                     return False
         if case["ops"][0][0] != "generate":
             return False
@@ -120,6 +129,9 @@ def valid(case):
                 if k == "render_model" and not (len(op) == 4 and isinstance(op[3], int) and 0 <= op[3] <= 50):
                     return False
                 if k == "render_failing" and not (isinstance(op[3], int) and 0 <= op[3] <= 50):
+                    return False
+            elif k == "names":
+                if not (isinstance(op[1], int) and 0 <= op[1] <= 2):
                     return False
             elif k == "cli":
                 if not all(isinstance(x, str) for x in op[1]):
@@ -190,13 +202,14 @@ def check(case):
             kind = op[0]
             if kind == "generate":
                 samples, o = inputs[op[1]], pl.norm_opts(optsets[op[2]])
+                root_name = o.pop("root_name", "Root")
                 try:
-                    b = pl.build(samples, o)
+                    b = pl.build(samples, o, name=root_name)
                 except Exception as e:  # noqa: BLE001
                     r.skip = "pipeline-error:%s@%s" % exc_sig(e)
                     return r
                 from ..findings import all_keys
-                ent = dict(b=b, samples=samples, opts=o, rendered=[], failed=False, tree=pl.is_tree(b.reg),
+                ent = dict(b=b, samples=samples, opts=o, name=root_name, rendered=[], failed=False, tree=pl.is_tree(b.reg),
                            has_config=any(gen.fold(k) in ("config", "configs") for s in samples for k in all_keys(s)))
                 if len(regs) < 3:
                     regs.append(ent)
@@ -217,7 +230,7 @@ def check(case):
                     except Exception as e:  # noqa: BLE001
                         got = ("exc", exc_sig(e)[0])
                     ent["rendered"].append((ro["fw"], "single"))
-                    resp = ref_child().ask({"op": "render_model", "samples": ent["samples"], "opts": ro, "index": op[3]})
+                    resp = ref_child().ask({"op": "render_model", "samples": ent["samples"], "opts": ro, "index": op[3], "name": ent["name"]})
                     exp = ("ok", resp["text"]) if resp["ok"] else ("exc", resp["exc"][0])
                     if got != exp:
                         prev = [o2[0] for o2 in case["ops"][:step]]
@@ -257,7 +270,7 @@ def check(case):
                 except Exception as e:  # noqa: BLE001
                     got = ("exc", exc_sig(e)[0])
                 ent["rendered"].append((ro["fw"], nested))
-                resp = ref_child().ask({"op": "render", "samples": ent["samples"], "opts": ro})
+                resp = ref_child().ask({"op": "render", "samples": ent["samples"], "opts": ro, "name": ent["name"]})
                 exp = ("ok", resp["text"]) if resp["ok"] else ("exc", resp["exc"][0])
                 if got[0] != exp[0]:
                     r.fail("exception-on-one-side", f"step {step} {op}: history {got[0]} {got[1] if got[0] == 'exc' else ''}, fresh {exp[0]} {exp[1] if exp[0] == 'exc' else ''}")
@@ -265,6 +278,15 @@ def check(case):
                 if got[0] == "ok" and got[1] != exp[1]:
                     prev = [o2[0] for o2 in case["ops"][:step]]
                     r.fail("render-differs-from-fresh", f"step {step} {op} after {prev}:\n{got[1]}\n--- fresh:\n{exp[1]}")
+                    return r
+            elif kind == "names":
+                # the documented pipeline step, called again on a registry that may already have been rendered
+                ent = regs[op[1] % len(regs)]
+                try:
+                    ent["b"].reg.generate_names()
+                    r.label("op:generate_names-again")
+                except Exception as e:  # noqa: BLE001
+                    r.fail("generate-names-again:" + type(e).__name__, str(e))
                     return r
             elif kind == "cli":
                 try:
